@@ -630,7 +630,7 @@ func byteUse(v ssa.Value, depth int) string {
 // checkAlternatingParity compares the parity->type map of isAlternatingTokens
 // with the decoder's.
 func checkAlternatingParity(p *core.Program, r *core.Report, dec *ssa.Function) {
-	alt := p.Method("Tokens", "isAlternatingTokens")
+	alt := alternationPredicate(p)
 	if alt == nil {
 		r.Note("no isAlternatingTokens helper: alternating parity map not compared")
 		return
